@@ -115,6 +115,8 @@ def _probe(proc):
     """what a bind / result processor does to a few fixed values (None = no processing)"""
     if proc is None:
         return None
+    if isinstance(proc, (tuple, list)):  # per-element processors of a tuple IN parameter
+        return tuple(_probe(p) for p in proc)
     out = []
     for v in _PROBES:
         try:
@@ -143,7 +145,9 @@ def _processed(c, raw):
             out[k] = v
             continue
         try:
-            if isinstance(v, (list, tuple)):
+            if isinstance(proc, (tuple, list)):  # tuple IN: one processor per element position
+                out[k] = [tuple((pp(e) if pp is not None else e) for pp, e in zip(proc, row)) for row in v]
+            elif isinstance(v, (list, tuple)):
                 out[k] = [proc(x) if not isinstance(x, (list, tuple)) else x for x in v]
             else:
                 out[k] = proc(v)
@@ -206,6 +210,8 @@ def _mech_from_diff(sa_, sb):
     if d is None:
         return "literal-values-only"
     parts = [str(p) for p in d if str(p).isidentifier() and not str(p).startswith("arg")]  # attribute names only
+    if "tuple_in_untyped" in parts:
+        return "tuple-element-types"   # the value types of a tuple IN over untyped columns
     return ".".join(parts[-3:]) or "root"
 
 
